@@ -27,7 +27,11 @@ Next == /\ i <= Len(Recs)
                crash == IF r.xf > 0 THEN SetToSeq(Cases[r.c].checks \cap (RefProps \cup {"C05", "C07", "C08", "C09", "C10", "C14", "C16", "C19", "C20"})) ELSE <<>>
                (* C18: the record carries the observations of the thread-safe form of the same history *)
                c18 == IF "other" \in DOMAIN r /\ "C18" \in Cases[r.c].checks THEN <<"C18">> ELSE <<>>   \* the replayer found the two forms to differ
-               bad == MonRun(Mon0, r.steps, Cases[r.c]) \o crash \o c18 IN
+               (* xfin > 0 (cases marked "C15x": finalize below other operators, where what completes its subscription is not   *)
+               (* visible from the subscriber's side): the finalizer counter of the crate left the one the specification gives   *)
+               (* at step xfin -- the callback ran at another moment, or another number of times, than specified                *)
+               c15 == IF "xfin" \in DOMAIN r /\ r.xfin > 0 /\ "C15x" \in Cases[r.c].checks THEN <<"C15">> ELSE <<>>
+               bad == MonRun(Mon0, r.steps, Cases[r.c]) \o crash \o c18 \o c15 IN
            PrintT(ToJson([i |-> i, c |-> r.c, form |-> r.form, bad |-> bad]))
         /\ i' = i + 1
 
